@@ -2,6 +2,7 @@ package an
 
 import (
 	"fmt"
+	"os"
 	"go/types"
 	"sort"
 
@@ -98,6 +99,27 @@ type guardInstance struct {
 
 func findGuards(fn *ssa.Function, guards []*Guard) []guardInstance {
 	var out []guardInstance
+	for _, g := range guardReach(fn, guards) {
+		out = append(out, findGuardsIn(g, guards)...)
+	}
+	return out
+}
+
+// guardReach: the functions a guarded query on fn enters - the inline reach without the bodies reached only through
+// a guard call (a guard call is decided at its call site and never entered).
+func guardReach(fn *ssa.Function, guards []*Guard) []*ssa.Function {
+	return InlineReachSkipping(fn, func(c *ssa.Call) bool {
+		for _, g := range guards {
+			if g.MatchCall != nil && g.MatchCall(c) {
+				return true
+			}
+		}
+		return false
+	})
+}
+
+func findGuardsIn(fn *ssa.Function, guards []*Guard) []guardInstance {
+	var out []guardInstance
 	for _, b := range fn.Blocks {
 		for _, in := range b.Instrs {
 			for _, g := range guards {
@@ -174,6 +196,7 @@ type GuardVerdict struct {
 	ActionSites int
 	Witness     string // path reaching the action with all guards failing
 	Action      ssa.Instruction
+	GuardPos    []string // where the guard instances are
 }
 
 // Guarded decides: with every instance of the given guards failing, no
@@ -181,20 +204,23 @@ type GuardVerdict struct {
 // Equivalently every path to an action crosses a success edge of a guard.
 func Guarded(p *Prog, fn *ssa.Function, guards []*Guard, isAction func(ssa.Instruction) bool, nonEmptyRange bool) GuardVerdict {
 	insts := findGuards(fn, guards)
-	var actions []ssa.Instruction
-	for _, b := range fn.Blocks {
-		for _, in := range b.Instrs {
-			if isAction(in) {
-				actions = append(actions, in)
-			}
+	actions := actionsIn(fn, guards, isAction)
+	v := GuardVerdict{Holds: true, GuardSites: len(insts), ActionSites: len(actions)}
+	for _, gi := range insts {
+		if gi.call != nil {
+			v.GuardPos = append(v.GuardPos, p.Rel(gi.call.Pos()))
+		} else if in, ok := gi.value.(ssa.Instruction); ok {
+			v.GuardPos = append(v.GuardPos, p.Rel(in.Pos()))
 		}
 	}
-	v := GuardVerdict{Holds: true, GuardSites: len(insts), ActionSites: len(actions)}
+	if os.Getenv("ONTOCHECK_DEBUG") != "" {
+		fmt.Fprintf(os.Stderr, "DEBUG Guarded %s: guards=%v actions=%d\n", FuncName(fn), v.GuardPos, len(actions))
+	}
 	if len(actions) == 0 {
 		return v
 	}
 	for _, as := range assumptions(insts) {
-		q := &Query{Fn: fn, Assume: as, NonEmptyRange: nonEmptyRange}
+		q := &Query{Fn: fn, Assume: as, NonEmptyRange: nonEmptyRange, Opaque: opaqueFor(insts, actions)}
 		r := q.Run()
 		for _, a := range actions {
 			if sts := r.StatesAt(a); len(sts) > 0 {
@@ -283,12 +309,12 @@ func IsWrapper(fn *ssa.Function, guards []*Guard, nonEmptyRange bool) bool {
 	if !has {
 		return false
 	}
-	insts := findGuards(fn, guards)
+	insts := findGuardsIn(fn, guards)
 	if len(insts) == 0 {
 		return false
 	}
 	for _, as := range assumptions(insts) {
-		q := &Query{Fn: fn, Assume: as, NonEmptyRange: nonEmptyRange}
+		q := &Query{Fn: fn, Assume: as, NonEmptyRange: nonEmptyRange, NoInline: true}
 		_, rets, _ := SuccessReturnsReachable(q, spec)
 		if len(rets) > 0 {
 			return false
@@ -385,11 +411,6 @@ func MustPassToSuccess(p *Prog, fn *ssa.Function, via []ssa.Instruction) (bool, 
 	return true, ""
 }
 
-// EdgeTaken reports whether the CFG edge from->to was traversed.
-func (r *Result) EdgeTaken(from, to *ssa.BasicBlock) bool {
-	return r.seen[pstate{from.Index, to.Index}]
-}
-
 // RunAllFail runs one query per failure-mode combination of the guards in
 // fn and calls visit for each result.
 func RunAllFail(fn *ssa.Function, guards []*Guard, extra map[ssa.Value]Abs, nonEmptyRange bool, visit func(r *Result)) (guardSites int) {
@@ -398,7 +419,7 @@ func RunAllFail(fn *ssa.Function, guards []*Guard, extra map[ssa.Value]Abs, nonE
 		for k, v := range extra {
 			as[k] = v
 		}
-		q := &Query{Fn: fn, Assume: as, NonEmptyRange: nonEmptyRange}
+		q := &Query{Fn: fn, Assume: as, NonEmptyRange: nonEmptyRange, Opaque: opaqueFor(insts, nil)}
 		visit(q.Run())
 	}
 	return len(insts)
@@ -442,15 +463,18 @@ func LoopBlocks(p, h *ssa.BasicBlock) map[*ssa.BasicBlock]bool {
 // guards, e.g. "the block is not empty").
 func GuardedX(p *Prog, fn *ssa.Function, guards []*Guard, extra map[ssa.Value]Abs, isAction func(ssa.Instruction) bool, nonEmptyRange bool) GuardVerdict {
 	insts := findGuards(fn, guards)
-	var actions []ssa.Instruction
-	for _, b := range fn.Blocks {
-		for _, in := range b.Instrs {
-			if isAction(in) {
-				actions = append(actions, in)
-			}
+	actions := actionsIn(fn, guards, isAction)
+	v := GuardVerdict{Holds: true, GuardSites: len(insts), ActionSites: len(actions)}
+	for _, gi := range insts {
+		if gi.call != nil {
+			v.GuardPos = append(v.GuardPos, p.Rel(gi.call.Pos()))
+		} else if in, ok := gi.value.(ssa.Instruction); ok {
+			v.GuardPos = append(v.GuardPos, p.Rel(in.Pos()))
 		}
 	}
-	v := GuardVerdict{Holds: true, GuardSites: len(insts), ActionSites: len(actions)}
+	if os.Getenv("ONTOCHECK_DEBUG") != "" {
+		fmt.Fprintf(os.Stderr, "DEBUG Guarded %s: guards=%v actions=%d\n", FuncName(fn), v.GuardPos, len(actions))
+	}
 	if len(actions) == 0 {
 		return v
 	}
@@ -458,7 +482,7 @@ func GuardedX(p *Prog, fn *ssa.Function, guards []*Guard, extra map[ssa.Value]Ab
 		for k, val := range extra {
 			as[k] = val
 		}
-		q := &Query{Fn: fn, Assume: as, NonEmptyRange: nonEmptyRange}
+		q := &Query{Fn: fn, Assume: as, NonEmptyRange: nonEmptyRange, Opaque: opaqueFor(insts, actions)}
 		r := q.Run()
 		for _, a := range actions {
 			if sts := r.StatesAt(a); len(sts) > 0 {
@@ -493,6 +517,52 @@ func FindValues(fn *ssa.Function, match func(ssa.Value) bool) []ssa.Value {
 			if v, ok := in.(ssa.Value); ok && match(v) {
 				out = append(out, v)
 			}
+		}
+	}
+	return out
+}
+
+// actionsIn lists the instructions selected by isAction in fn and in the functions a query on fn may enter.
+func actionsIn(fn *ssa.Function, guards []*Guard, isAction func(ssa.Instruction) bool) []ssa.Instruction {
+	var actions []ssa.Instruction
+	for _, g := range guardReach(fn, guards) {
+		for _, b := range g.Blocks {
+			for _, in := range b.Instrs {
+				// the returns of an entered helper are not returns of fn
+				if _, isRet := in.(*ssa.Return); isRet && g != fn {
+					continue
+				}
+				if isAction(in) {
+					actions = append(actions, in)
+				}
+			}
+		}
+	}
+	return actions
+}
+
+// opaqueFor: guard calls and action calls are decided at their call site and are not entered.
+func opaqueFor(insts []guardInstance, actions []ssa.Instruction) func(ssa.CallInstruction) bool {
+	set := map[ssa.Instruction]bool{}
+	for _, gi := range insts {
+		if gi.call != nil {
+			set[gi.call] = true
+		}
+	}
+	for _, a := range actions {
+		set[a] = true
+	}
+	return func(c ssa.CallInstruction) bool { return set[c] }
+}
+
+// GuardInstrs lists the instructions of the guard instances in fn and in the functions a query on fn may enter.
+func GuardInstrs(fn *ssa.Function, guards []*Guard) []ssa.Instruction {
+	var out []ssa.Instruction
+	for _, gi := range findGuards(fn, guards) {
+		if gi.call != nil {
+			out = append(out, gi.call)
+		} else if in, ok := gi.value.(ssa.Instruction); ok {
+			out = append(out, in)
 		}
 	}
 	return out
